@@ -15,6 +15,14 @@ PENDING = "check not built yet (implementation in progress); the design is in DE
 
 VPNOTE = 'Trusted: clang AST, the path engine, the fact language of sa/vp.py (what counts as a reducing producer / accepted test is listed there), buffer identity by carve expression; frozen per-function tables (point-validation level, accepted alternative forms) carry one reason each. Decides necessary structural conditions, not the numerical statements of the property.'
 CHECKS = {
+ "C10": dict(level="other",
+   text="One clause of the property is decided, exactly: a state that belt.h/brng.h/botp.h declare copyable as a memory fragment never stores an address derived from the state itself, a local object or the scratch stack. Type inventory of all state structs of these families (a struct without pointer fields cannot break relocation) plus classification of every store into a pointer field by the origin of the stored address. Chunking equivalence and Get-then-continue quantify over values and are declined.",
+   design="4/C10", technique="type inventory + points-to classification of stores (AST dataflow)",
+   note="Trusted: clang AST; addresses enter states only through typed pointer fields (no raw copy of an address into state bytes exists in the tree)."),
+ "C19": dict(level="other",
+   text="Two exact necessary conditions: (1) every one of the ~1290 ASSERT arguments is free of assignments/increments and calls only functions whose bottom-up effect summary is empty (no global write, no write through a parameter, no allocation/lock/unknown indirect call), so assertion-enabled and release builds execute the same state changes; (2) the set of public functions and their prototypes is identical across B_PER_W 64/32, regular/SAFE_FAST builds (modulo _safe/_fast renaming; each of the 33 regular editions has a fast twin of identical type) and the five bash-f platforms. Equality of outputs across configurations for all inputs is a value statement and is declined.",
+   design="4/C19", technique="effect analysis (bottom-up summaries over the call graph) + cross-configuration API diff on the type-checked AST",
+   note="Trusted: clang AST for each configuration; B_PER_W=32 is parsed with 64-bit size_t (no 32-bit headers in the image); optimisation level is not an axis of these rules."),
  "C12": dict(level="other",
    text="Must-call completeness on all paths: for 18 validators (parameter sets of bign/bign96/g12s/dstu/stb99/pfok, public keys, key pairs, points, curve validity and group safety, bels public keys, field validity) the multiset of sub-checks accepted on the way to every success return is recomputed and must contain the frozen set read off the reference tree (74 obligations incl. MOV thresholds and 'G has order q'); the six YYMMDD octets are digit-tested before arithmetic; priIsPrime's Rabin-Miller iteration count is at least B_PER_IMPOSSIBLE/2. That the primality / irreducibility / next-prime routines compute the right answer is number theory over all inputs and is declined.",
    design="4/C12", technique="must-pass-through (dominance on all CFG paths) against a frozen sub-check table", note=VPNOTE),
